@@ -191,6 +191,9 @@ Proof.
     pose proof (IHf k _ _ _ _ _ Hwf1 (wpos_firstn k w Hw) (Lf w eq_refl) (Lf x Lx) (Lf y Ly) E1 C1) as H1.
     pose proof (IHg (length w - k)%nat _ _ _ _ _ Hwf2 (wpos_skipn k w Hw) (Ls w eq_refl) (Ls x Lx) (Ls y Ly) E2 C2) as H2.
     rewrite (wdot_split k w x y). apply fy_sum; assumption.
+  - (* FPair *) cbn [wf] in Hwf. destruct Hwf as (_ & _ & Hok). destruct (Hok w Hw eq_refl) as (Hfy & _).
+    cbn [value] in Hv. unfold Rules.cval in Hc. cbn [cconj value] in Hc.
+    exact (Hfy pb x y vx vy Lx Ly Hv Hc).
 Qed.
 
 
